@@ -816,7 +816,10 @@ fn keyid_case<B: Backend>(cx: &mut Ctx, rng: &mut Prng, pairs: &[keys::Pair]) {
             ($K:ty) => {{
                 match key_from_bytes::<B::V, $K>(&kb) {
                     Ok(k) => {
-                        let id = k.id();
+                        let Ok(id) = catch_unwind(AssertUnwindSafe(|| k.id())) else {
+                            cx.emit("forward", "equal", false, json!({"what": "id bytes", "panic": true}));
+                            continue;
+                        };
                         cx.equal("forward", id.as_bytes(), &ev(fam, &c["id"], &inp), json!({"what": "id bytes"}));
                         cx.equal("forward", id.to_string().as_bytes(), &ev(fam, &c["id_text"], &inp), json!({"what": "id text"}));
                         cx.equal("forward", k.expose_key().to_string().as_bytes(), &ev(fam, &c["key_text"], &inp), json!({"what": "key text"}));
@@ -843,7 +846,10 @@ fn keyid_case<B: Backend>(cx: &mut Ctx, rng: &mut Prng, pairs: &[keys::Pair]) {
             ($K:ty) => {{
                 match key_from_bytes::<B::V, $K>(&kb) {
                     Ok(k) => {
-                        let id = k.id();
+                        let Ok(id) = catch_unwind(AssertUnwindSafe(|| k.id())) else {
+                            cx.emit("forward", "equal", false, json!({"what": "id bytes", "role": "key-sealing", "panic": true}));
+                            continue;
+                        };
                         cx.equal("forward", id.as_bytes(), &ev(fam, &c["id"], &inp), json!({"what": "id bytes", "role": "key-sealing"}));
                         cx.equal("forward", id.to_string().as_bytes(), &ev(fam, &c["id_text"], &inp), json!({"what": "id text", "role": "key-sealing"}));
                         cx.equal("forward", k.expose_key().to_string().as_bytes(), &ev(fam, &c["key_text"], &inp), json!({"what": "key text", "role": "key-sealing"}));
